@@ -30,7 +30,7 @@ package audit
 
 //@ func NewFile(path) (w, err)
 //@   ensures [C05 newfile.result] err != nil ==> w == nil
-//@   at call OpenFile: assert [C05 audit-file-flags] arg_flag == 1089 && arg_perm == 384
+//@   at call OpenFile: assert [C05,C06 audit-file-flags] arg_flag == 1089 && arg_perm == 384
 
 // New wires the encoder to the given sink: the writer db.Open requires (enc != nil) is what New returns.
 //@ func New(w) (l)
